@@ -383,7 +383,7 @@ def rule_fresh(c: Ctx) -> RuleResult:
                       "discharged" if ok else "violation",
                       "read only in validation mode, i.e. when called from a terminator dispatch (where parentType is fresh)" if ok else
                       "parentType is read outside validation mode: on the main chain it holds whatever the previous top-level block left")
-    if ndisp < 5:
+    if ndisp < 3:
         raise AnchorError(f"only {ndisp} terminator dispatch sites found")
     r.floor = 8
     return r
